@@ -11,7 +11,7 @@ import subprocess
 import sys
 import time
 
-VERIF = '/verif'
+VERIF = os.path.dirname(os.path.abspath(__file__))
 FOUND = VERIF + '/replays/found'
 EVID = VERIF + '/evidence'
 
